@@ -572,8 +572,9 @@ def run(ctx):
     nsim = 2500 if thorough else 250
     for name, conf, share in (("sim_same3", "same3", 0.5), ("sim_stale3", "stale3", 0.2), ("sim_stale3b", "stale3b", 0.15),
                               ("sim_stale5", "stale5free", 0.15)):
+        # (the simulator also evaluates Emit on the siblings of the last step: more schedules than num)
         ss, _ = gen(name, conf, 3, ALL_FAULTS, True, True, "Emit", False, 48, simulate="num=%d" % max(10, int(nsim * share)),
-                    pledges=(101, 102, 103), attempts=2)
+                    pledges=(101, 102, 103), attempts=2, limit=max(10, int(nsim * share)))
         if not ss:
             raise vlib.Inconclusive("no simulated schedules (%s)" % name)
         scenarios += ss
